@@ -71,6 +71,10 @@ class LeakHarness(planh.PlanHarness):
 
     def _make_fn(self, i):
         harness = self
+        if str(i) in (self.cfg.get("cfail") or []) or i in (self.cfg.get("cfail") or []):
+            # a consumer implemented in C that fails: no Python frame of the callee ends up in the traceback
+            import operator
+            return operator.neg
 
         def f(*args, **kwargs):
             s = e1.sched()
@@ -78,6 +82,7 @@ class LeakHarness(planh.PlanHarness):
             if harness.cfg["W"] == 1:
                 # one worker: when a call starts, the engine-side processing of every earlier call is over
                 s.ctx["completed"].update(s.ctx["started"])
+                s.ctx["completed"].update(s.ctx["failed_seen"])
             s.ctx["started"].append(i)
             harness.audit(s, ("start", i))
             e1.hpoint(("call", i))
@@ -101,6 +106,7 @@ class LeakHarness(planh.PlanHarness):
         ctx["completed"] = set()
         ctx["started"] = []
         ctx["first_failed"] = None
+        ctx["failed_seen"] = set()
         self.extra_refs = []
         self.written = set()
         return ctx
@@ -131,7 +137,8 @@ class LeakHarness(planh.PlanHarness):
                     e1.hpoint(("obs.completed", i))
 
             def increment_failed(self_, *, section, scope, exception):
-                pass
+                if section == "run" and scope in harness.scope_to_i:
+                    s.ctx["failed_seen"].add(harness.scope_to_i[scope])
 
         return Progress(Recorder)
 
@@ -209,7 +216,7 @@ class LeakHarness(planh.PlanHarness):
         if s.uncaught:
             yield ("C07", f"uncaught exception in a thread: {s.uncaught}")
         mr = s.main_result
-        if mr and mr[0] == "exc" and not self.fail:
+        if mr and mr[0] == "exc" and not self.fail and not self.cfg.get("cfail"):
             yield ("C16", f"run raised {mr[1]!r}")
 
 
@@ -263,14 +270,30 @@ def fault_cfgs(tier):
                                "fail": {str(f): k for f, k in zip(fs, ks)}, "max_errors": None}
 
 
+def cfail_cfgs(tier):
+    """A consumer implemented in C (operator.neg on a result object) fails: its traceback holds no frame of the callee,
+    so even when it is the FIRST failure nothing may keep its argument alive once it has finished."""
+    shapes = [(4, [(0, 1)]), (5, [(0, 2), (1, 3)]), (5, [(0, 1), (0, 2)])]
+    for n, edges in shapes:
+        consumers = sorted({j for _, j in edges})
+        for k in range(1, len(consumers) + 1):
+            fs = consumers[:k]
+            for sc in ("default", "random"):
+                yield {"n": n, "edges": [(i, j, "p") for i, j in edges], "output": [i for i in range(n) if not any(e[0] == i for e in edges)],
+                       "W": 1, "sched": sc, "cfail": fs, "fail": {}, "max_errors": None,
+                       "scopes": {str(i): ["n", i] for i in range(n)}}  # unique scopes: both consumers are operator.neg
+
+
 def explorations(tier):
     if tier == "quick":
         return [("G3+G4+scheduler-test shapes, W=1, <=1 preemption, random draws enumerated (<=2 deviations)", FACTORY, list(cfgs(tier, 1)), {"preempt": 1, "random": 2, "yield": 1}),
                 ("G3+scheduler-test shapes, W=2, <=1 preemption", FACTORY, list(cfgs(tier, 2)), {"preempt": 1, "random": 1, "yield": 1}),
-                ("failing consumers (Exception/BaseException/SystemExit), max_errors=None, W=1", FACTORY, [c for c in fault_cfgs(tier) if c["sched"] == "random" or len(c["fail"]) == 1], {"preempt": 0})]
+                ("failing consumers (Exception/BaseException/SystemExit), max_errors=None, W=1", FACTORY, [c for c in fault_cfgs(tier) if c["sched"] == "random" or len(c["fail"]) == 1], {"preempt": 0}),
+                ("failing consumers implemented in C, max_errors=None, W=1, every pop order", FACTORY, list(cfail_cfgs(tier)), {"preempt": 0})]
     return [("G3+G4+shapes, W=1, <=1 preemption, all random draws", FACTORY, list(cfgs(tier, 1)), {"preempt": 1}),
             ("G3+G4+shapes, W=2, <=2 preemptions", FACTORY, list(cfgs(tier, 2)), {"preempt": 2, "random": 1, "yield": 2}),
-            ("failing consumers (Exception/BaseException/SystemExit), max_errors=None, W=1", FACTORY, list(fault_cfgs(tier)), {"preempt": 1})]
+            ("failing consumers (Exception/BaseException/SystemExit), max_errors=None, W=1", FACTORY, list(fault_cfgs(tier)), {"preempt": 1}),
+            ("failing consumers implemented in C, max_errors=None, W=1, every pop order", FACTORY, list(cfail_cfgs(tier)), {"preempt": 1})]
 
 
 def run(tier):
